@@ -166,6 +166,14 @@ class Opaque:
 
 
 @dataclass
+class Ghost:
+  """ghost (specification-only) function usable in contract expressions"""
+
+  name: str
+  fn: object
+
+
+@dataclass
 class Access:
   kind: str  # 'r' | 'w' | 'atomic'
   arr: ArrRef
@@ -1182,6 +1190,8 @@ class Exec:
 
         return B.call_py(self, w[3:], args, kw, fr, e)
       raise Unsupported(f"call of {w}")
+    if isinstance(callee, Ghost):
+      return callee.fn(*args)
     if isinstance(callee, type) and issubclass(callee, enum.Enum):
       if len(args) == 1 and is_conc(args[0]):
         return callee(args[0])
@@ -1275,9 +1285,12 @@ class Exec:
       nf.env[p] = v
     self.inlined.add(info.key)
     self.call_depth += 1
+    # the callee runs only on paths where the caller is still active (not returned/broken)
+    self.st.pc.append(self.active(fr))
     try:
       self.exec_block(node.body, nf)
     finally:
+      self.st.pc.pop()
       self.call_depth -= 1
     return nf.env.get("$retval")
 
